@@ -69,7 +69,11 @@ func (fp *FilePath) Write(b []byte) (n int, err error) {
 
 	for i := 0; i < int(binary.BigEndian.Uint16(fp.ItemCount[:])); i++ {
 		var fpi FilePathItem
-		scanner.Scan()
+		if !scanner.Scan() {
+			// The data ended before the announced item count was reached.  (Scanner.Bytes would keep returning
+			// the last item, so a count of 65535 used to repeat it tens of thousands of times.)
+			return n, errors.New("file path: item count exceeds the items present")
+		}
 
 		// Make a new []byte slice and copy the scanner bytes to it.  This is critical to avoid a data race as the
 		// scanner re-uses the buffer for subsequent scans.
